@@ -17,6 +17,12 @@ CHECKS = {
  'C05': dict(tech=B, cat='model_checking',
              text='every aggregate / unit-variant entry point (CS_Total, the Kissel totals, 10 barn twins, 4 Kissel twins, DCS/DCSP Rayleigh and Compton) evaluated symbolically with its parts as uninterpreted functions: value equals the defining identity for all Z, E, theta, phi and fails iff a part is undefined',
              note='double modelled as real; parts are uninterpreted >= 0 with error iff 0; sin/cos uninterpreted in [-1,1]; DL2: data present => atomic weight present'),
+ 'C08': dict(tech=B, cat='model_checking',
+             text='all 32 run-time recursion functions, the 16 build-time constant functions, the 8 shell and 8 line entry points (+ aliases and 8 barn twins) evaluated symbolically from the IR: each equals the cascade model written from the macro NAMES (Auger membership, line->shell, CK feeding), for all Z, E, line/shell ints and all table contents; fails iff the partial photo-ionisation is unavailable',
+             note='double modelled as real; primitives uninterpreted >= 0 with error iff 0; the pr_data.c dispatch loop that stores the constants and DL1 for a regenerated Kissel table are outside the claim'),
+ 'C12': dict(tech=B + '; sympy antiderivative certificate checked by z3', cat='model_checking',
+             text='Thomson/Klein-Nishina/Compton-energy kernels from the IR: positivity, KN <= Thomson with explicit convergence bound, ratio form, range/monotonicity of the Compton energy, polarised forms affine in cos^2(phi) averaging to the unpolarised ones, dependence on angles only via cos/sin^2, CS_KN = 2 pi integral of DCS_KN by an antiderivative certificate, E <= 0 is an error',
+             note='double modelled as real: rounding (e.g. cancellation in CS_KN at very low energy) is outside this claim; libm parity/periodicity, <cos^2> = 1/2 and log 1 = 0 are imported facts'),
 }
 NA = {
  'C19': 'no symbolic engine for Java/JVM bytecode is installed (no JBMC/SPF); a hand-written Java->SMT translator for 5900 lines using ByteBuffer I/O, exceptions and collections is out of reach; see DESIGN.md C19',
